@@ -253,8 +253,7 @@ def evaluate__instance_expression(self: XPathToken, context: ta.ContextType = No
 
             result = self[1].evaluate(context)
             if isinstance(result, list) and not result:
-                return occurs in ('*', '?') or \
-                    isinstance(context.item, XPathFunction) and \
+                return isinstance(context.item, XPathFunction) and \
                     context.item.name == XSD_ERROR
             elif position and occurs in ('', '?'):
                 return False
@@ -293,8 +292,16 @@ def evaluate__treat_expression(self: XPathToken, context: ta.ContextType = None)
         for _ in self[0].select(context):
             raise self.error('XPDY0050')
     elif self[1].label in ('kind test', 'sequence type', 'function test'):
+        if context is None:
+            raise self.missing_context()
+
+        test_context = copy(context)
+        if test_context.axis is None:
+            test_context.axis = 'self'
+
         for position, item in enumerate(self[0].select(context)):
-            result = self[1].evaluate(context)
+            test_context.item = item
+            result = self[1].evaluate(test_context)
             if not result and isinstance(result, list):
                 raise self.error('XPDY0050')
             elif position and occurs in ('', '?'):
